@@ -4,6 +4,7 @@
 
 mod drive;
 mod evjson;
+mod pure;
 mod universe;
 mod writers;
 
@@ -132,6 +133,53 @@ fn main() {
                 &pipelines,
             )
         }),
+        "pure-retry" => {
+            let lines = read_ndjson(&args[1]);
+            let mut out = fs::File::create(&args[2]).unwrap();
+            for l in lines {
+                let mut rec = l.clone();
+                let r = pure::retry_vector(&l);
+                rec["actual"] = r["actual"].clone();
+                writeln!(out, "{rec}").unwrap();
+            }
+        }
+        "pure-filter" => {
+            let lines = read_ndjson(&args[1]);
+            let mut out = fs::File::create(&args[2]).unwrap();
+            for l in lines {
+                let specs: Vec<universe::FeatureSpec> =
+                    serde_json::from_value(l["universe"].clone()).unwrap();
+                let mut rec = l.clone();
+                let r = pure::filter_vector(&specs, &l);
+                rec["received"] = r["received"].clone();
+                rec["expr_text"] = r["expr_text"].clone();
+                writeln!(out, "{rec}").unwrap();
+            }
+        }
+        "pure-stepmatch" => {
+            let lines = read_ndjson(&args[1]);
+            let mut out = fs::File::create(&args[2]).unwrap();
+            for l in lines {
+                let r = pure::stepmatch_vector(&l);
+                // keep records small: the tables are constant
+                let rec = json!({"id": l["id"], "regs": l["regs"],
+                                 "finds": r["finds"], "table_ok": r["table_ok"]});
+                writeln!(out, "{rec}").unwrap();
+            }
+        }
+        "pure-outline" => {
+            let lines = read_ndjson(&args[1]);
+            let mut out = fs::File::create(&args[2]).unwrap();
+            let tmp = std::path::PathBuf::from(&args[3]);
+            fs::create_dir_all(&tmp).unwrap();
+            for l in lines {
+                let mut rec = l.clone();
+                let r = pure::outline_vector(&l, &tmp);
+                rec["actual"] = r["actual"].clone();
+                rec["text"] = r["text"].clone();
+                writeln!(out, "{rec}").unwrap();
+            }
+        }
         "replay-comb" => replay_loop(&args[1..], |objs, l| {
             writers::replay_comb(objs, l["inp"].as_array().unwrap())
         }),
